@@ -4,6 +4,7 @@ package imports
 
 import (
 	"bytes"
+	"strings"
 
 	rt "github.com/rogpeppe/go-internal/internal/verifrt"
 )
@@ -94,13 +95,13 @@ func vString(vary bool, maxLen int) string {
 }
 
 type vGen struct {
-	buf      bytes.Buffer
-	slot     int
-	varyA    int
-	varyB    int
-	imports  []string
-	varyStr  bool
-	strLen   int
+	buf     bytes.Buffer
+	slot    int
+	varyA   int
+	varyB   int
+	imports []string
+	varyStr bool
+	strLen  int
 }
 
 func (g *vGen) sl(kind int) {
@@ -255,6 +256,46 @@ func VerifC18Specs() {
 	src, e, s := vFile(shape, bom, g)
 	rt.Reach("specs")
 	vCheckFile(src, bom, g.imports, e, s)
+}
+
+// VerifC18LongLines: files whose comments, blank runs or import paths are
+// longer than any internal read buffer (bufio's default is 4096 bytes): a
+// long piece of a solver-chosen kind and length is placed before, between or
+// after two imports.
+func VerifC18LongLines() {
+	kind := rt.IntRange(0, 3)
+	n := []int{100, 4095, 4096, 5000, 9000}[rt.IntRange(0, rt.Param("LENS", 4))]
+	where := rt.IntRange(0, 2)
+	var long string
+	switch kind {
+	case 0:
+		long = "//" + strings.Repeat("x", n) + "\n"
+	case 1:
+		long = "/*" + strings.Repeat("y", n) + "*/"
+	case 2:
+		long = strings.Repeat(" ", n)
+	case 3:
+		long = strings.Repeat("\n", n)
+	}
+	parts := []string{"package p\n", "import \"a\"\n", "import b \"c\"\n"}
+	var sb strings.Builder
+	for i, part := range parts {
+		sb.WriteString(part)
+		if i == where {
+			sb.WriteString(long)
+		}
+	}
+	end := sb.Len()
+	if where == 2 {
+		end -= len(long)
+	}
+	sb.WriteString("var x = 1\n")
+	src := []byte(sb.String())
+	rt.Reach("long-piece")
+	if n >= 4096 {
+		rt.Reach("longer-than-a-read-buffer")
+	}
+	vCheckFile(src, false, []string{"\"a\"", "\"c\""}, end-1, len(src)-len("var x = 1\n"))
 }
 
 // VerifC18Arbitrary: arbitrary bytes after fixed prefixes: termination
